@@ -7,7 +7,7 @@ from props._semprop import fill
 from sem import run_semantic
 
 MODULE = "Proofs.Props.C01"
-THEOREMS = ["Facto.Circuit.settle", "Facto.Circuit.settled_fixpoint", "Facto.Circuit.settled_stable", "Facto.Circuit.evalEnt_local"]
+THEOREMS = ["Facto.Circuit.settle", "Facto.Circuit.settled_fixpoint", "Facto.Circuit.settled_stable", "Facto.Circuit.evalEnt_local", "Facto.scalar_end_to_end", "Facto.checkAll_sound"]
 
 
 def cse_key(op):
